@@ -56,6 +56,16 @@ CHECKS = {
              "(Exception / AssertionError), plus all pairs when |H| <= 14: ~13k (program, fault) cases per quick run. Checked: nothing "
              "escapes run(), verdict failed, exact hook log and grammar, hook-error attribution, body suppression, containment.",
         note="Trusted: vf/refmodel.py hook skeleton, recogniser in vf/props/c12.py. Faults are Exception/AssertionError only."),
+    "C14": dict(
+        level="exploration", design="DESIGN.md 5/C14",
+        technique="property-based testing: generated runs with the real summary reporter (all 5 formats) and SummaryCollector; "
+                  "oracle = independent census of the model after the run + numbers parsed back from the printed lines",
+        text="Thousands of generated runs (rules, outlines, backgrounds, --stop/abort remainders, hook faults, dry-run) with the "
+             "summary reporter active in all five output formats and the collector: per kind (feature, rule, scenario, step) the "
+             "reporter tables, the collector counts and the numbers parsed from each printed format must equal an independent "
+             "census of the model; the failing/errored listings must equal the failed / error-class scenarios.",
+        note="Trusted: census walker and line parsers in vf/props/c14.py. SummaryReporterV2 (unused alias, crashes in print_summary) "
+             "is not exercised; the collector is driven directly."),
 }
 
 PENDING_REASON = "not yet claimed in this revision: the check for this property is still under construction (see DESIGN.md 5)"
